@@ -152,6 +152,11 @@ func runC08(c *Ctx) {
 	checkSameNamedParametersNotCrossed(c, "C08-R3", "waddrmgr")
 	checkSyncPointWrittenThroughManager(c, "C08-R2")
 	checkBlockHashAnswersFromDatabase(c, "C08-R2")
+	// the same for the account names and for the scope registry: the running manager answers what a freshly opened one would
+	checkMustPassOnSuccess(c, "C08-R2", "account-name-answered-from-database", c.P.Func("waddrmgr", "ScopedKeyManager", "AccountName"), "fetchAccountName",
+		"ScopedKeyManager.AccountName can answer from the account cache without reading the database: RenameAccount writes the cached name before its transaction commits, so after a rolled-back rename the running manager reports a name a restarted manager does not know")
+	checkMustPassOnSuccess(c, "C08-R2", "new-scope-always-persisted", c.P.Func("waddrmgr", "Manager", "NewScopedKeyManager"), "createScopedManagerNS",
+		"Manager.NewScopedKeyManager can report success without having written the scope (a shortcut through the in-memory registry, which is filled before the caller's transaction commits): after a rolled-back creation the committed retry writes nothing, and the scope exists in the running manager only")
 	checkDerivationPathLiterals(c, "C08-R3")
 	checkRowRewrites(c, "C08-R4")
 	c.Advisory("Manager.SetBirthday stores the in-memory birthday before writing it (outside the property's query list)")
